@@ -271,6 +271,16 @@ LeftKeptDev(rows, q, dv) ==
         same(a1, a2) == \A k \in DOMAIN q.proj : q.proj[k] \in DOMAIN a1 => a1[q.proj[k]] = a2[q.proj[k]]
     IN  \A a \in A : Cardinality({n \in DOMAIN rows : agrees(rows[n], a)}) >= Cardinality({a2 \in A : same(a, a2)})
 
+\* The same fact about Layer A itself (checked by TLC for every chained query of a trace, QueryTrace!QVerdict): every
+\* solution of the pattern before the chain is extended by some solution of the whole pattern - so LeftKeptDev asks of
+\* the engine nothing that the oracle does not do, whichever way NULL joins.
+ModelKeepsLeft(q) ==
+    LET cs == q.clauses
+        j == CHOOSE j \in DOMAIN cs : OptChainAt(cs, j) /\ \A k \in 1..(j - 1) : ~OptChainAt(cs, k)
+        A == {x.a : x \in SolutionsDev([q EXCEPT !.clauses = SubSeq(cs, 1, j - 1)], {})}
+        S == Solutions(q)
+    IN  \A a \in A : \E x \in S : \A b \in DOMAIN a : x.a[b] = a[b]
+
 \* ---------------------------------------------------------------------------------------------
 \* GROUP BY (C11): rows/grouped are sequences of rows; a row is a sequence of cells.
 \* spec = sequence of output columns [op |-> "key"|"count"|"countd"|"sum", i |-> input column]
